@@ -577,7 +577,7 @@ impl<B: Fld> Air for GAir<B> {
             })
             .collect()
     }
-    fn evaluate_aux_transition<F, E>(&self, main: &EvaluationFrame<F>, aux: &EvaluationFrame<E>, _p: &[F], rands: &[E], r: &mut [E])
+    fn evaluate_aux_transition<F, E>(&self, main: &EvaluationFrame<F>, aux: &EvaluationFrame<E>, p: &[F], rands: &[E], r: &mut [E])
     where
         F: FieldElement<BaseField = B>,
         E: FieldElement<BaseField = B> + ExtensionOf<F>,
@@ -585,7 +585,10 @@ impl<B: Fld> Air for GAir<B> {
         let a = self.pub_inputs.shape.aux.as_ref().expect("aux shape");
         let w = self.pub_inputs.shape.width();
         for j in 0..a.cols {
-            let m: E = main.current()[j % w].into();
+            // the auxiliary rules also read the periodic columns (additively, so the declared degrees hold):
+            // running product over (main + random + periodic) / running sum over (main + periodic)
+            let pv: E = if p.is_empty() { E::ZERO } else { p[j % p.len()].into() };
+            let m: E = E::from(main.current()[j % w]) + pv;
             // the number of random elements comes from the proof's trace info: be defensive, an
             // AIR cannot signal an error here
             let rnd = if a.rands > 0 { rands.get(j % a.rands).copied().unwrap_or(E::ZERO) } else { E::ZERO };
@@ -761,10 +764,12 @@ pub fn build_aux<B: Fld, E: FieldElement<BaseField = B>>(shape: &Shape, main: &C
     let n = main.num_rows();
     let w = shape.width();
     let mut cols: Vec<Vec<E>> = Vec::new();
+    let per = shape.periodic_values::<B>();
     for j in 0..a.cols {
         let mut col = vec![if a.rands > 0 { E::ONE } else { E::ZERO }; n];
         for i in 0..n - 1 {
-            let m = E::from(main.get(j % w, i));
+            let pv = if per.is_empty() { B::ZERO } else { per[j % per.len()][i % per[j % per.len()].len()] };
+            let m = E::from(main.get(j % w, i) + pv);
             col[i + 1] = if a.rands > 0 { col[i] * (m + rands[j % a.rands]) } else { col[i] + m };
         }
         cols.push(col);
